@@ -304,6 +304,15 @@ Proof.
       destruct (r_denom r =? d); lia.
 Qed.
 
+(* the settlement moves the module's coins of one denom by exactly -spent, whatever the sign *)
+Lemma settle_spec l d spent l' : settle l d spent = LOk l' ->
+  forall a x, l' a x = l a x - (if (a =? MOD) && (x =? d) then spent else 0).
+Proof.
+  unfold settle. destruct (Z.ltb_spec spent 0).
+  - intros E. injection E as <-. intros a x. rewrite mint_spec. destruct ((a =? MOD) && (x =? d)); lia.
+  - intros S. apply burn_spec in S. exact (proj2 S).
+Qed.
+
 (* ---------------- one step ---------------- *)
 (* bookkeeping is preserved by EVERY successful step: no hypothesis on the operation *)
 Lemma lstep_invB c s o s' : LInvB c s -> lstep c s o = Ok s' -> LInvB c s'.
@@ -350,7 +359,7 @@ Proof.
     destruct (fill_recs debt coll prem D whos s) as [s1 ch] eqn:E1.
     destruct (fill_recs_spec c _ _ _ _ _ _ _ _ E1 HB) as (HB1 & _ & _).
     destruct (denom_of c debt) as [dd|]; [|intros E; injection E as <-; exact HB1].
-    unfold lift. destruct (burn_from (led s1) MOD dd spent) as [l'| |]; try discriminate.
+    unfold lift. destruct (settle (led s1) dd spent) as [l'| |]; try discriminate.
     intros E. injection E as <-. exact HB1.
 Qed.
 
@@ -402,8 +411,8 @@ Proof.
     destruct (fill_recs_spec c _ _ _ _ _ _ _ _ E1 HB) as (_ & Hl1 & Hs1).
     unfold denom_is in Hs1.
     destruct (denom_of c debt) as [dd|].
-    + unfold lift. destruct (burn_from (led s1) MOD dd spent) as [l'| |] eqn:S; try discriminate.
-      apply burn_spec in S. destruct S as (Hsp & S). intros E. injection E as <-.
+    + unfold lift. destruct (settle (led s1) dd spent) as [l'| |] eqn:S; try discriminate.
+      pose proof (settle_spec _ _ _ _ S) as S'. clear S. rename S' into S. intros E. injection E as <-.
       intros d. specialize (HC d). specialize (Hs1 d). unfold sum_denom in *. cbn [recs led] in *.
       rewrite S, Hl1. unfold MOD in *. eqb_cases; lia.
     + intros E. injection E as <-. intros d. specialize (HC d). specialize (Hs1 d).
